@@ -34,6 +34,23 @@ impl ClientOperation {
 //@end
 }
 
+// the packet with its packet-id field zeroed (what unbind_packet_id leaves behind)
+pub open spec fn reset_packet(p: MqttPacket) -> MqttPacket {
+    match p {
+        MqttPacket::Subscribe(x) => MqttPacket::Subscribe(SubscribePacket { packet_id: 0, ..x }),
+        MqttPacket::Unsubscribe(x) => MqttPacket::Unsubscribe(UnsubscribePacket { packet_id: 0, ..x }),
+        MqttPacket::Publish(x) => MqttPacket::Publish(PublishPacket { packet_id: 0, ..x }),
+        _ => p,
+    }
+}
+pub open spec fn unbound_op(op: ClientOperation) -> ClientOperation {
+    if op.packet_id is Some { ClientOperation { packet_id: None, packet: Box::new(reset_packet(*op.packet)), ..op } } else { op }
+}
+// an operation that starts over: no packet id, no PUBREL  (C06 "until the operation is restarted because the session was lost", C04)
+pub open spec fn restarted_op(op: ClientOperation) -> ClientOperation {
+    ClientOperation { qos2_pubrel: None, ..unbound_op(op) }
+}
+
 // everything but the packet-id field of the packet is untouched
 pub open spec fn same_packet_except_id(a: MqttPacket, b: MqttPacket) -> bool {
     match (a, b) {
@@ -375,44 +392,32 @@ impl ProtocolState {
         }
 //@end
 
-//@fn gneiss-mqtt/src/protocol.rs ProtocolState::unbind_operation_packet_id props=C06,C04
-    requires old(self).wf(),
-        // only ever applied to operations that are not awaiting an acknowledgement
-        old(self).operations@.contains_key(id) && old(self).operations@[id].packet_id is Some ==> {
-            let p = old(self).operations@[id].packet_id->Some_0;
-            !old(self).pending_publish_operations@.contains_key(p) && !old(self).pending_non_publish_operations@.contains_key(p)
-                && old(self).operations@[id].qos2_pubrel is None
-        },
-    ensures final(self).wf(),
+//@fn gneiss-mqtt/src/protocol.rs ProtocolState::unbind_operation_packet_id props=C06,C04,C11
+    // purely functional contract (no wf in the precondition): session handling calls this while the allocation table is
+    // deliberately out of step with the operations (it was cleared in one go); wf is re-established there by lemma_restart_wf
+    requires
+        old(self).operations@.contains_key(id) && old(self).operations@[id].packet_id is Some ==> carries_packet_id_field(*old(self).operations@[id].packet),
+    ensures
+        *final(self) == (ProtocolState { operations: final(self).operations, allocated_packet_ids: final(self).allocated_packet_ids, ..*old(self) }),
         final(self).operations@.dom() =~= old(self).operations@.dom(),
         forall|k: u64| k != id && old(self).operations@.contains_key(k) ==> final(self).operations@[k] == old(self).operations@[k],
-        old(self).operations@.contains_key(id) ==> {
-            let op = old(self).operations@[id];
-            let op2 = final(self).operations@[id];
-            &&& op2.packet_id is None
-            &&& final(self).allocated_packet_ids@ == unbind_map(old(self).allocated_packet_ids@, op.packet_id)
-            &&& (op.packet_id is Some ==> packet_id_field(*op2.packet) == 0 && same_packet_except_id(*op.packet, *op2.packet))
-            &&& (op.packet_id is None ==> op2 == op)
-        },
+        old(self).operations@.contains_key(id) ==> final(self).operations@[id] == unbound_op(old(self).operations@[id])
+            && final(self).allocated_packet_ids@ == unbind_map(old(self).allocated_packet_ids@, old(self).operations@[id].packet_id),
         !old(self).operations@.contains_key(id) ==> final(self).allocated_packet_ids@ == old(self).allocated_packet_ids@,
-        final(self).pending_publish_operations@ == old(self).pending_publish_operations@,
-        final(self).pending_non_publish_operations@ == old(self).pending_non_publish_operations@,
 //@@at bodyend
         proof {
-            assert(self.ss_set() =~= old(self).ss_set());
             if !old(self).operations@.contains_key(id) { assert(self.operations@ =~= old(self).operations@); }
         }
 //@end
 
 //@fn gneiss-mqtt/src/protocol.rs ProtocolState::clear_qos2_state props=C04
-    requires old(self).wf(),
-    ensures final(self).wf(),
+    ensures
         final(self).operations@.dom() =~= old(self).operations@.dom(),
         forall|k: u64| k != id && old(self).operations@.contains_key(k) ==> final(self).operations@[k] == old(self).operations@[k],
         old(self).operations@.contains_key(id) ==> final(self).operations@[id] == (ClientOperation { qos2_pubrel: None, ..old(self).operations@[id] }),
         *final(self) == (ProtocolState { operations: final(self).operations, ..*old(self) }),
 //@@at bodyend
-        proof { if old(self).operations@.contains_key(id) { lemma_wf_op_update(*old(self), *self, id); } else { assert(self.operations@ =~= old(self).operations@); } }
+        proof { if !old(self).operations@.contains_key(id) { assert(self.operations@ =~= old(self).operations@); } }
 //@end
 
 //@fn gneiss-mqtt/src/protocol.rs ProtocolState::set_publish_duplicate_flag props=C04
@@ -2092,10 +2097,94 @@ impl ProtocolState {
 // entry points (C11, C07, C15, C01)
 // =====================================================================================================
 
+pub open spec fn sorted_ids(q: Seq<u64>) -> bool { forall|i: int, j: int| 0 <= i < j < q.len() ==> q[i] <= q[j] }
+
+// (body: VecDeque::rotate_right / as_mut_slices / slice::sort - no Verus specifications) -> assumed contract, examined by E-B
+// (sort_operation_deque_all_small_layouts: every ring layout up to 16 slots)
+//@fn gneiss-mqtt/src/protocol.rs sort_operation_deque props=C10 stub
+    ensures final(operations)@.to_multiset() == old(operations)@.to_multiset(), sorted_ids(final(operations)@),
+//@end
+
 impl InboundAliasResolver {
 //@fn gneiss-mqtt/src/alias.rs InboundAliasResolver::reset_for_new_connection props=C17
     ensures final(self).current_aliases@ == Map::<u16, String>::empty(), final(self).maximum_alias_value == old(self).maximum_alias_value,
 //@end
+}
+
+// ---- CONNACK session handling (C04, C05, C06, C10, C15)
+pub open spec fn handshake_quiet(s: ProtocolState) -> bool {
+    &&& s.high_priority_operation_queue@.len() == 0
+    &&& s.pending_publish_operations@ == Map::<u16, u64>::empty() && s.pending_non_publish_operations@ == Map::<u16, u64>::empty()
+    &&& heap_view(s.operation_ack_timeouts) == Multiset::<Reverse<OperationTimeoutRecord>>::empty()
+    &&& s.pending_write_completion_operations@.len() == 0
+}
+pub open spec fn resubmit_only_publishes(s: ProtocolState) -> bool {
+    forall|i: int| 0 <= i < s.resubmit_operation_queue@.len() && s.operations@.contains_key(#[trigger] s.resubmit_operation_queue@[i])
+        ==> *s.operations@[s.resubmit_operation_queue@[i]].packet is Publish
+}
+pub open spec fn bound_ops_queued(s: ProtocolState) -> bool {
+    forall|k: u64| #[trigger] s.operations@.contains_key(k) && s.operations@[k].packet_id is Some
+        ==> s.resubmit_operation_queue@.contains(k) || s.user_operation_queue@.contains(k)
+}
+pub open spec fn asp_frame(pre: ProtocolState, post: ProtocolState) -> bool {
+    &&& post.state == pre.state && post.current_settings == pre.current_settings && post.config == pre.config
+    &&& post.next_ping_timepoint == pre.next_ping_timepoint && post.ping_timeout_timepoint == pre.ping_timeout_timepoint
+    &&& post.connack_timeout_timepoint == pre.connack_timeout_timepoint && post.has_connected_successfully == pre.has_connected_successfully
+    &&& post.current_operation == pre.current_operation && post.next_operation_id == pre.next_operation_id && post.next_packet_id == pre.next_packet_id
+    &&& post.pending_write_completion == pre.pending_write_completion && post.current_time == pre.current_time && post.protocol_version == pre.protocol_version
+}
+
+pub proof fn lemma_concat_contains<A>(a: Seq<A>, b: Seq<A>)
+    ensures forall|x: A| #[trigger] (a + b).contains(x) <==> (a.contains(x) || b.contains(x)),
+{
+    assert forall|x: A| #[trigger] (a + b).contains(x) <==> (a.contains(x) || b.contains(x)) by {
+        if a.contains(x) { let i = choose|i: int| 0 <= i < a.len() && a[i] == x; assert((a + b)[i] == x); }
+        if b.contains(x) { let i = choose|i: int| 0 <= i < b.len() && b[i] == x; assert((a + b)[a.len() + i] == x); }
+        if (a + b).contains(x) { let i = choose|i: int| 0 <= i < (a + b).len() && (a + b)[i] == x; if i < a.len() { assert(a[i] == x); } else { assert(b[i - a.len()] == x); } }
+    }
+}
+
+pub proof fn lemma_qpart_contains(s: ProtocolState, q: Seq<u64>, policy: OfflineQueuePolicy, keep: bool)
+    ensures forall|x: u64| #[trigger] qpart(s, q, policy, keep).contains(x) <==>
+        (q.contains(x) && s.operations@.contains_key(x) && policy_keeps(*s.operations@[x].packet, policy) == keep),
+    decreases q.len()
+{
+    if q.len() > 0 {
+        let q0 = q.drop_last();
+        lemma_qpart_contains(s, q0, policy, keep);
+        lemma_push_contains(q0, q.last());
+        assert(q0.push(q.last()) =~= q);
+        lemma_push_contains(qpart(s, q0, policy, keep), q.last());
+    }
+}
+
+// after the user queue has been walked (each id unbound and its QoS2 state cleared) the representation invariant holds again
+pub proof fn lemma_restart_wf(sd: ProtocolState, fin: ProtocolState, done: Set<u64>)
+    requires sd.wf_x(),
+        forall|k: u64| #[trigger] sd.operations@.contains_key(k) && !done.contains(k) ==> sd.alloc_dir2_for(k),
+        sd.pending_publish_operations@ == Map::<u16, u64>::empty(), sd.pending_non_publish_operations@ == Map::<u16, u64>::empty(),
+        fin == (ProtocolState { operations: fin.operations, allocated_packet_ids: fin.allocated_packet_ids, user_operation_queue: fin.user_operation_queue,
+            resubmit_operation_queue: fin.resubmit_operation_queue, ..sd }),
+        fin.operations@.dom() =~= sd.operations@.dom(),
+        forall|k: u64| #[trigger] fin.operations@.contains_key(k) ==> fin.operations@[k] == (if done.contains(k) { restarted_op(sd.operations@[k]) } else { sd.operations@[k] }),
+        forall|p: u16| #[trigger] fin.allocated_packet_ids@.contains_key(p) <==> sd.allocated_packet_ids@.contains_key(p) && !done.contains(sd.allocated_packet_ids@[p]),
+        forall|p: u16| #[trigger] fin.allocated_packet_ids@.contains_key(p) ==> fin.allocated_packet_ids@[p] == sd.allocated_packet_ids@[p],
+    ensures fin.wf(),
+{
+    assert(fin.ss_set() =~= sd.ss_set());
+    assert forall|k: u64| #[trigger] fin.operations@.contains_key(k) implies
+        fin.operations@[k].id == k && k != 0 && k < fin.next_operation_id && op_wf(fin.operations@[k]) by {
+        assert(sd.operations@.contains_key(k));
+    }
+    assert forall|p: u16| #[trigger] fin.allocated_packet_ids@.contains_key(p) implies
+        p != 0 && fin.operations@.contains_key(fin.allocated_packet_ids@[p]) && fin.operations@[fin.allocated_packet_ids@[p]].packet_id == Some(p) by {
+        assert(sd.allocated_packet_ids@.contains_key(p));
+    }
+    assert forall|k: u64| #[trigger] fin.operations@.contains_key(k) implies
+        (fin.operations@[k].packet_id matches Some(p) ==> fin.allocated_packet_ids@.contains_key(p) && fin.allocated_packet_ids@[p] == k) by {
+        assert(sd.operations@.contains_key(k));
+        if fin.operations@[k].packet_id is Some { assert(!done.contains(k)); assert(sd.alloc_dir2_for(k)); }
+    }
 }
 
 impl ProtocolState {
@@ -2124,14 +2213,196 @@ impl ProtocolState {
         *final(self) == (ProtocolState { slow_start_ack_count: final(self).slow_start_ack_count, ..*old(self) }),
 //@end
 
-//@fn gneiss-mqtt/src/protocol.rs ProtocolState::apply_session_present_to_connection stub
-    requires old(self).wf(),
-    ensures final(self).wf(),
-        final(self).state == old(self).state, final(self).current_settings == old(self).current_settings,
-        final(self).next_ping_timepoint == old(self).next_ping_timepoint, final(self).ping_timeout_timepoint == old(self).ping_timeout_timepoint,
-        final(self).connack_timeout_timepoint == old(self).connack_timeout_timepoint,
-        final(self).has_connected_successfully == old(self).has_connected_successfully,
-        final(self).current_operation == old(self).current_operation,
+//@fn gneiss-mqtt/src/protocol.rs ProtocolState::apply_session_present_to_connection props=C04,C05,C06,C10,C15,C11,C01 desugar
+    requires old(self).wf(), old(self).state == ProtocolStateType::Connected,
+        // A-HANDSHAKE (examined by E-B at every CONNACK it explores): nothing but the CONNECT was written on this connection ...
+        handshake_quiet(*old(self)),
+        // ... the retransmission queue holds publishes only, and every operation that still holds a packet id is queued
+        resubmit_only_publishes(*old(self)),
+        !session_present ==> bound_ops_queued(*old(self)),
+    ensures final(self).wf(), handshake_quiet(*final(self)),
+        asp_frame(*old(self), *final(self)),
+        // C10: submission order is re-established in both queues
+        sorted_ids(final(self).user_operation_queue@), sorted_ids(final(self).resubmit_operation_queue@),
+        forall|k: u64| #[trigger] final(self).operations@.contains_key(k) ==> old(self).operations@.contains_key(k),
+        // session resumed: in-flight publishes stay as they are (same id, DUP) and are retransmitted first; whatever waits in the user queue starts over
+        session_present ==> {
+            &&& final(self).resubmit_operation_queue@.to_multiset() == old(self).resubmit_operation_queue@.to_multiset()
+            &&& final(self).user_operation_queue@.to_multiset() == old(self).user_operation_queue@.to_multiset()
+            &&& final(self).qos2_incomplete_incoming_publishes@ == old(self).qos2_incomplete_incoming_publishes@
+            &&& final(self).operations@.dom() =~= old(self).operations@.dom()
+            &&& forall|k: u64| #[trigger] final(self).operations@.contains_key(k) ==> final(self).operations@[k] ==
+                    (if old(self).user_operation_queue@.contains(k) { restarted_op(old(self).operations@[k]) } else { old(self).operations@[k] })
+        },
+        // session lost: nothing is retransmitted; the offline policy decides which interrupted publishes start over as fresh ones (DUP=0, no id);
+        // the inbound QoS2 ids are forgotten and no packet id stays reserved
+        !session_present ==> {
+            &&& final(self).resubmit_operation_queue@.len() == 0
+            &&& final(self).qos2_incomplete_incoming_publishes@ == Set::<u16>::empty()
+            &&& final(self).allocated_packet_ids@ == Map::<u16, u64>::empty()
+            &&& forall|k: u64| #[trigger] final(self).operations@.contains_key(k) ==> final(self).operations@[k].packet_id is None && final(self).operations@[k].qos2_pubrel is None
+            &&& forall|k: u64| old(self).resubmit_operation_queue@.contains(k) && #[trigger] old(self).operations@.contains_key(k) ==>
+                    (final(self).operations@.contains_key(k) <==> policy_keeps(*old(self).operations@[k].packet, old(self).config.offline_queue_policy))
+            &&& forall|k: u64| old(self).resubmit_operation_queue@.contains(k) && #[trigger] final(self).operations@.contains_key(k) ==>
+                    (*final(self).operations@[k].packet matches MqttPacket::Publish(publish) && !publish.duplicate)
+            &&& forall|k: u64| !old(self).resubmit_operation_queue@.contains(k) && #[trigger] old(self).operations@.contains_key(k) ==> final(self).operations@.contains_key(k)
+        },
+//@@at bodystart
+        let ghost mut sa = *self;
+        let ghost mut sb = *self;
+        let ghost mut sc = *self;
+        let ghost mut retained0 = Seq::<u64>::empty();
+        let ghost mut rejected0 = Seq::<u64>::empty();
+//@@loop 0 iter=it
+                invariant self.wf(), old(self).wf(), self.state == ProtocolStateType::Connected,
+                    it.seq().unref() =~= retained@,
+                    *self == (ProtocolState { operations: self.operations, ..sa }),
+                    self.operations@.dom() =~= sa.operations@.dom(),
+                    // only the DUP flag of walked publishes changes
+                    forall|k: u64| #[trigger] self.operations@.contains_key(k) ==> op_evolved(sa.operations@[k], self.operations@[k])
+                        && self.operations@[k].slow_start_ack_value == sa.operations@[k].slow_start_ack_value
+                        && self.operations@[k].interruption_count == sa.operations@[k].interruption_count,
+                    forall|j: int| 0 <= j < it.index@ && self.operations@.contains_key(*#[trigger] it.seq()[j]) ==>
+                        (*self.operations@[*it.seq()[j]].packet matches MqttPacket::Publish(publish) && !publish.duplicate),
+                    forall|j: int| 0 <= j < retained@.len() && sa.operations@.contains_key(#[trigger] retained@[j]) ==> *sa.operations@[retained@[j]].packet is Publish,
+//@@loop 1 iter=it
+            invariant
+                it.seq().unref() =~= user_queue@,
+                *self == (ProtocolState { operations: self.operations, allocated_packet_ids: self.allocated_packet_ids, ..sd }),
+                self.operations@.dom() =~= sd.operations@.dom(),
+                sd.wf_x(), sd.allocated_packet_ids@ == Map::<u16, u64>::empty() || sd.wf_alloc(),
+                forall|k: u64| #[trigger] self.operations@.contains_key(k) ==> self.operations@[k] ==
+                    (if it.seq().unref().take(it.index@ as int).contains(k) { restarted_op(sd.operations@[k]) } else { sd.operations@[k] }),
+                forall|p: u16| #[trigger] self.allocated_packet_ids@.contains_key(p) <==> sd.allocated_packet_ids@.contains_key(p)
+                    && !it.seq().unref().take(it.index@ as int).contains(sd.allocated_packet_ids@[p]),
+                forall|p: u16| #[trigger] self.allocated_packet_ids@.contains_key(p) ==> self.allocated_packet_ids@[p] == sd.allocated_packet_ids@[p],
+                it.index@ == it.seq().len() ==> it.seq().unref().take(it.index@ as int) =~= user_queue@,
+//@@at after "std::mem::swap(&mut resubmit, &mut self.resubmit_operation_queue);"
+            proof { sa = *self; assert(self.ss_set() =~= old(self).ss_set()); assert(self.wf()); }
+//@@at after "let (mut retained, rejected) = self.partition_operation_queue_by_queue_policy(&resubmit, &self.config.offline_queue_policy);"
+            proof {
+                lemma_qpart_contains(sa, resubmit@, sa.config.offline_queue_policy, true);
+                lemma_qpart_contains(sa, resubmit@, sa.config.offline_queue_policy, false);
+                assert forall|j: int| 0 <= j < retained@.len() && sa.operations@.contains_key(#[trigger] retained@[j]) implies *sa.operations@[retained@[j]].packet is Publish by {
+                    assert(retained@.contains(retained@[j]));
+                    assert(resubmit@.contains(retained@[j]));
+                    let i = choose|i: int| 0 <= i < resubmit@.len() && resubmit@[i] == retained@[j];
+                    assert(old(self).resubmit_operation_queue@[i] == retained@[j]);
+                }
+            }
+            proof { retained0 = retained@; rejected0 = rejected@; }
+//@@at before "self.set_publish_duplicate_flag(*id, false)"
+                proof {
+                    assert(it.seq().unref()[it.index@ as int] == *id);
+                    assert(retained@[it.index@ as int] == *id);
+                    if self.operations@.contains_key(*id) { assert(op_evolved(sa.operations@[*id], self.operations@[*id])); }
+                }
+//@@at after "self.user_operation_queue.append(&mut retained);"
+            proof { sb = *self; }
+//@@at after "generate_offline_queue_policy_failed_error);"
+            proof {
+                sc = *self;
+                assert(self.pending_publish_operations@ =~= Map::<u16, u64>::empty());
+                assert(self.pending_non_publish_operations@ =~= Map::<u16, u64>::empty());
+            }
+//@@at after "self.allocated_packet_ids.clear();"
+            proof {
+                assert(self.ss_set() =~= sc.ss_set());
+                assert(self.wf_x());
+            }
+//@@at after "std::mem::swap(&mut user_queue, &mut self.user_operation_queue);"
+        let ghost sd = *self;
+        proof {
+            assert(self.ss_set() =~= old(self).ss_set() || !session_present);
+            assert(sd.wf_x());
+        }
+//@@at before "self.unbind_operation_packet_id(*id);"
+            let ghost pre_step = *self;
+            proof {
+                let done = it.seq().unref().take(it.index@ as int);
+                assert(it.seq().unref()[it.index@ as int] == *id);
+                assert(it.seq().unref().take(it.index@ + 1) =~= done.push(*id));
+                lemma_push_contains(done, *id);
+                if self.operations@.contains_key(*id) {
+                    assert(sd.operations@.contains_key(*id));
+                    assert(op_wf(sd.operations@[*id]));
+                }
+            }
+//@@at after "self.clear_qos2_state(*id);"
+            proof {
+                let done = it.seq().unref().take(it.index@ as int);
+                if pre_step.operations@.contains_key(*id) {
+                    let o0 = sd.operations@[*id];
+                    assert(op_wf(o0));
+                    assert(restarted_op(restarted_op(o0)) == restarted_op(o0));
+                    assert(self.operations@[*id] == restarted_op(o0));
+                    if pre_step.operations@[*id].packet_id is Some {
+                        let p0 = pre_step.operations@[*id].packet_id->Some_0;
+                        assert(!done.contains(*id));
+                        assert(o0.packet_id == Some(p0));
+                        if sd.allocated_packet_ids@.contains_key(p0) { assert(sd.allocated_packet_ids@[p0] == *id); }
+                    }
+                }
+            }
+//@@at after "self.user_operation_queue = user_queue;"
+        proof {
+            let done = self.user_operation_queue@.to_set();
+            if !session_present {
+                lemma_concat_contains(old(self).user_operation_queue@, retained0);
+                assert(self.user_operation_queue@ =~= old(self).user_operation_queue@ + retained0);
+            }
+            assert forall|k: u64| #[trigger] sd.operations@.contains_key(k) && !done.contains(k) implies sd.alloc_dir2_for(k) by {
+                if !session_present {
+                    // every operation that still held an id was queued: in the old user queue, or in the retransmission queue - and then it was
+                    // either moved to the user queue (kept by the policy) or failed (rejected)
+                    if sd.operations@[k].packet_id is Some {
+                        assert(sc.operations@.contains_key(k));
+                        assert(sb.operations@.contains_key(k) && !rejected0.contains(k));
+                        assert(sa.operations@.contains_key(k));
+                        assert(op_evolved(sa.operations@[k], sb.operations@[k]));
+                        assert(old(self).operations@[k].packet_id is Some);
+                        assert(old(self).resubmit_operation_queue@.contains(k) || old(self).user_operation_queue@.contains(k));
+                        if old(self).resubmit_operation_queue@.contains(k) {
+                            assert(retained0.contains(k) || rejected0.contains(k));
+                        }
+                        assert(self.user_operation_queue@.contains(k));
+                        assert(false);
+                    }
+                }
+            }
+            lemma_restart_wf(sd, *self, done);
+        }
+//@@at before "assert!(self.high_priority_operation_queue.is_empty());"
+        proof {
+            sd.resubmit_operation_queue@.to_multiset_ensures();
+            self.resubmit_operation_queue@.to_multiset_ensures();
+            assert(self.ss_set() =~= sd.ss_set() || true);
+            if !session_present {
+                assert(self.resubmit_operation_queue@.len() == 0);
+                assert(self.qos2_incomplete_incoming_publishes@ == Set::<u16>::empty());
+                assert forall|k: u64| !old(self).resubmit_operation_queue@.contains(k) && #[trigger] old(self).operations@.contains_key(k) implies self.operations@.contains_key(k) by {
+                    assert(sa.operations@.contains_key(k)); assert(sb.operations@.contains_key(k));
+                    assert(!rejected0.contains(k));
+                    assert(sc.operations@.contains_key(k));
+                }
+                assert(self.allocated_packet_ids@ =~= Map::<u16, u64>::empty());
+                assert forall|k: u64| #[trigger] self.operations@.contains_key(k) implies self.operations@[k].packet_id is None && self.operations@[k].qos2_pubrel is None by {
+                    assert(sd.operations@.contains_key(k)); assert(op_wf(sd.operations@[k]));
+                }
+                assert forall|k: u64| old(self).resubmit_operation_queue@.contains(k) && #[trigger] old(self).operations@.contains_key(k) implies
+                    (self.operations@.contains_key(k) <==> policy_keeps(*old(self).operations@[k].packet, old(self).config.offline_queue_policy)) by {
+                    assert(sa.operations@.contains_key(k));
+                    assert(retained0.contains(k) || rejected0.contains(k));
+                }
+                assert forall|k: u64| old(self).resubmit_operation_queue@.contains(k) && #[trigger] self.operations@.contains_key(k) implies
+                    (*self.operations@[k].packet matches MqttPacket::Publish(publish) && !publish.duplicate) by {
+                    assert(sd.operations@.contains_key(k)); assert(sb.operations@.contains_key(k)); assert(sa.operations@.contains_key(k));
+                    assert(retained0.contains(k));
+                    let j = choose|j: int| 0 <= j < retained0.len() && retained0[j] == k;
+                    assert(*sb.operations@[k].packet matches MqttPacket::Publish(publish) && !publish.duplicate);
+                }
+            }
+        }
 //@end
 
 // (body uses `completions.iter().copied()`: Iterator::copied on vec_deque::Iter is outside Verus) -> assumed, E-B
@@ -2147,8 +2418,17 @@ impl ProtocolState {
                 && final(self).current_operation == old(self).current_operation,
 //@end
 
+}
+
+// what must be true of the engine when a CONNACK is accepted (A-HANDSHAKE; see apply_session_present_to_connection)
+pub open spec fn connack_ready(s: ProtocolState) -> bool {
+    handshake_quiet(s) && resubmit_only_publishes(s) && bound_ops_queued(s)
+}
+
+impl ProtocolState {
 //@fn gneiss-mqtt/src/protocol.rs ProtocolState::handle_connack props=C07,C14,C11,C17
     requires old(self).wf(), *packet is Connack, clock_ok(old(context).current_time),
+        old(self).state == ProtocolStateType::PendingConnack ==> connack_ready(*old(self)),
     ensures final(self).wf(),
         final(context).current_time == old(context).current_time,
         ({
@@ -2180,6 +2460,7 @@ impl ProtocolState {
 
 //@fn gneiss-mqtt/src/protocol.rs ProtocolState::handle_packet props=C11,C01,C05
     requires old(self).wf(), opid_budget(*old(self), 1), clock_ok(old(context).current_time),
+        (*packet is Connack && old(self).state == ProtocolStateType::PendingConnack) ==> connack_ready(*old(self)),
     ensures final(self).wf(),
         final(context).current_time == old(context).current_time,
         // packets a server may never send, and AUTH, are connection errors
